@@ -28,7 +28,7 @@ func init() {
 			{Name: "per-nlri-copy-written-by-hand", File: "protocols/bgp/server/fsm_address_family.go", Old: "\t\tp := path.Copy()\n\t\tp.BGPPath.PathIdentifier = n.PathIdentifier\n", New: "\t\tp := &route.Path{Type: path.Type, LTime: path.LTime, BGPPath: &route.BGPPath{BGPPathA: path.BGPPath.BGPPathA.Copy(), ASPath: path.BGPPath.ASPath, ASPathLen: path.BGPPath.ASPathLen, Communities: path.BGPPath.Communities, LargeCommunities: path.BGPPath.LargeCommunities}}\n\t\tp.BGPPath.PathIdentifier = n.PathIdentifier\n", Expect: "hand-written-copy-names-every-field"},
 			{Name: "copy-skips-empty-lists", File: "route/bgp_path.go", Old: "\tif cp.ASPath != nil {\n", New: "\tif cp.ASPath != nil && len(*cp.ASPath) > 0 {\n", Expect: "copy-gives-own-list-headers"},
 			{Name: "prepend-appends-to-a-callers-buffer", File: "route/bgp_path.go", Old: "\t\told := (*b.ASPath)[0].ASNs\n\t\tasns := make([]uint32, len(old)+1)\n\t\tcopy(asns[1:], old)\n\t\tasns[0] = asn\n\t\t(*b.ASPath)[0].ASNs = asns\n", New: "\t\told := (*b.ASPath)[0].ASNs\n\t\t(*b.ASPath)[0].ASNs = append((*b.Communities)[:1], old...)\n", Expect: "attribute-sequences-written-only-when-fresh"},
-			{Name: "serializer-rewrites-shared-asns", File: "protocols/bgp/packet/path_attributes.go", Old: "\tfor _, segment := range *pa.Value.(*types.ASPath) {\n\t\tsegmentsBuf.WriteByte(segment.Type)\n", New: "\tfor _, segment := range *pa.Value.(*types.ASPath) {\n\t\tfor i := range segment.ASNs {\n\t\t\tif !opt.Use32BitASN && segment.ASNs[i] > 65535 {\n\t\t\t\tsegment.ASNs[i] = 23456\n\t\t\t}\n\t\t}\n\t\tsegmentsBuf.WriteByte(segment.Type)\n", Expect: "attribute-sequences-written-only-when-fresh"},
+			{Name: "serializer-rewrites-shared-asns", File: "protocols/bgp/packet/path_attributes.go", Old: "\t\tsegmentsBuf.WriteByte(segment.Type)\n\t\tsegmentsBuf.WriteByte(uint8(len(segment.ASNs)))\n", New: "\t\tfor i := range segment.ASNs {\n\t\t\tif !opt.Use32BitASN && segment.ASNs[i] > 65535 {\n\t\t\t\tsegment.ASNs[i] = 23456\n\t\t\t}\n\t\t}\n\t\tsegmentsBuf.WriteByte(segment.Type)\n\t\tsegmentsBuf.WriteByte(uint8(len(segment.ASNs)))\n", Expect: "attribute-sequences-written-only-when-fresh"},
 			{Name: "refresh-rewrites-locrib-path", File: "routingtable/adjRIBOut/adj_rib_out.go", Old: "\t\tp, redist := p.CheckRedistribute(route.BGPPathType)\n", New: "\t\tvar redist bool\n", Expect: "mutator-gets-owned-path"},
 			{Name: "store-after-dedup", File: "routingtable/adjRIBOut/adj_rib_out.go", Old: "\tp.BGPPath = p.BGPPath.Dedup()\n\n\treturn a.addPath(pfx, p)", New: "\tp.BGPPath = p.BGPPath.Dedup()\n\tif a.sessionAttrs.RouteServerClient {\n\t\tp.BGPPath.BGPPathA.MED = 0\n\t}\n\n\treturn a.addPath(pfx, p)", Expect: "no-store-after-dedup"},
 			{Name: "chain-returns-callers-path", File: "routingtable/filter/chain.go", Old: "\tmp := pa.Copy()\n", New: "\tif len(c) == 0 {\n\t\treturn pa, false\n\t}\n\n\tmp := pa.Copy()\n", Expect: "process-copies-first"},
